@@ -12,6 +12,7 @@ from ..tlvcheck import extracted, finish_with_errors, short
 
 ASN1 = "sansldap.asn1"
 NOT_ENOUGH = "sansldap.asn1.NotEnougData"
+from ..anchors import is_incomplete  # noqa: E402
 
 
 def all_nodes(nodes: List[RNode]):
@@ -44,7 +45,7 @@ def check(model: Model, run: Run) -> None:
             if r.exc is not None:
                 exq = model.resolve_name(fi.module, norm(r.exc.func if isinstance(r.exc, ast.Call) else r.exc))
             conds = enclosing(fi.node, r)
-            ok = exq == NOT_ENOUGH
+            ok = is_incomplete(model, exq)
             why = "input exhausted"
             if not ok:
                 # the single sanctioned rejection: the indefinite-length octet 0x80
